@@ -99,6 +99,26 @@ pub Rev: Vec<(&'input str, &'input str)> = List<Kv<V, K>>;
 ''',
 }
 
+CUSTOM["v_multiline"] = r'''
+grammar;
+// string literals of action code that run over several lines (ordinary, raw, byte): their contents are tokens
+pub Msg: String = {
+    "a" => "first line
+        second line
+    third".to_string(),
+    "b" => r#"raw one
+          raw two"#.to_string(),
+    "c" <n:Num> => {
+        let s = format!("{} items
+  listed", n);
+        s
+    },
+};
+pub Bytes: Vec<u8> = "d" => b"bytes one
+      bytes two".to_vec();
+Num: usize = r"[0-9]+" => <>.len();
+'''
+
 FLAGS = [(c, w, r) for c in (False, True) for w in (True, False) for r in (False, True)]
 
 
@@ -110,6 +130,13 @@ def random_grammars(seed, n, d):
     except Exception as ex:  # the generator belongs to another engine: its absence only shrinks the population
         log("random grammars not available: %s" % ex)
         return []
+    # LR(1)-but-not-LALR(1) families: only they reach the lane-table state splitter (clones, merge order)
+    import random
+    rng = random.Random(seed * 7 + 11)
+    fam = [gen.lr1_not_lalr(rng, 900000 + i) for i in range(max(12, n // 2))]
+    for i, g in enumerate(fam):
+        g["id"] = "nl%04d" % i
+    pop = list(pop) + fam
     out = []
     for k, g in enumerate(pop):
         gid = "g_%s" % g["id"]
